@@ -93,6 +93,7 @@ def stage_b(ctx, sess, keys, dump, t0):
     world = valkit.World(keys, sess, rng=random.Random(ctx.seed))
     nv = ctx.pick(2, 3)
     cache, n, fams, devs = {}, 0, {}, {}
+    devseen = {'as-coded': 0, 'intended': 0, 'neither': 0}
     sampled = set()
     for st in urikit.read_dump(dump, ('fam', 'c', 'p', 'out')):
         c, p, out = st['c'], norm_p(st['p']), st['out']
@@ -116,9 +117,11 @@ def stage_b(ctx, sess, keys, dump, t0):
                               replay_obj(ctx, world, c, p, cs, 'mix'))
                 continue
             obs = world.observe(c, name, sig)
-            if obs != out:
-                report(ctx, 'B', world, c, p, out, obs, cs, 'mix', wire)
-            elif st['fam'] not in sampled and out['v'] == 'accept' and len(wire) < 400:
+            if out['alt'] != out['v']:
+                devseen['as-coded' if obs['v'] == out['v'] else 'intended' if obs['v'] == out['alt'] else 'neither'] += 1
+            if obs['calls'] != out['calls'] or obs['v'] not in (out['v'], out['alt']):
+                report(ctx, 'B', world, c, p, {'v': out['v'], 'calls': out['calls']}, obs, cs, 'mix', wire)
+            if st['fam'] not in sampled and obs == {'v': out['v'], 'calls': out['calls']} and out['v'] == 'accept' and len(wire) < 400:
                 sampled.add(st['fam'])
                 ctx.sample({'stage': 'B', 'family': st['fam'], 'checker': c, 'packet': p, 'wire': wire.hex(), 'model': out, 'library': obs})
     if not n:
@@ -128,8 +131,9 @@ def stage_b(ctx, sess, keys, dump, t0):
     ctx.extra['val_B_cases'] = n
     ctx.extra['val_B_packets_built'] = len(cache)
     ctx.extra['val_B_deviation_cases'] = devs
-    ctx.note('val B: %d cases (%s; %d variants each) on %d packets built; deviation cases %s (t=%.0fs)' % (
-        n, ', '.join('%s %d' % kv for kv in sorted(fams.items())), nv, len(cache), devs, time.perf_counter() - t0))
+    ctx.extra['val_B_deviation_behaviour_seen'] = devseen
+    ctx.note('val B: %d cases (%s; %d variants each) on %d packets built; deviation cases %s, library behaves %s there (t=%.0fs)' % (
+        n, ', '.join('%s %d' % kv for kv in sorted(fams.items())), nv, len(cache), devs, devseen, time.perf_counter() - t0))
 
 
 def stage_c(ctx, sess, keys, t0):
